@@ -286,6 +286,10 @@ func runC10(c *Ctx, r *Report) {
 	r.Doc("R-C10.8", "the outcome does not depend on the fetch concurrency: no configuration of slots and queued hashes stalls the dispatcher (slot release before the mutex, worker accounting on every path)")
 	importRules(c, r, "C11", []string{"R-C11.1", "R-C11.6"}, "R-C10.8")
 	importRules(c, r, "C18", []string{"R-C18.7"}, "R-C10.8", 0) // the codec objects the fetch workers share are concurrency-safe
+	r.Doc("R-C10.16", "which entries a load returns does not depend on what the process did before: nothing on the decode path reads package-level state the process can change (adopted from C09: an entry that stops decoding is dropped silently, together with the branch behind it)")
+	importRules(c, r, "C09", []string{"R-C09.14"}, "R-C10.16", 0)
+	r.Doc("R-C10.17", "the constructors hand the caller's start entries / hashes to their loader as given: k, the number of entries the caller supplied, is what the loader counts and puts back")
+	startArgumentsReachLoaders(c, r, "R-C10.17")
 	r.Doc("R-C10.15", "nothing is allocated for the length limit itself: every sized allocation is bounded by a collection that exists (adopted from C15: a limit above the log's size returns the whole log)")
 	importRules(c, r, "C15", []string{"R-C15.15"}, "R-C10.15")
 	r.Doc("R-C10.12", "a fetched entry is never refused, and its predecessors never left unqueued, on a clock tie: wherever the fetcher compares an entry's clock time with a bound it tracks before admitting the entry or queueing its links, the condition is as true for an equal time as for a later one (the log's order breaks equal times by writer id, so a tied entry can still belong to the kept tail; treating it as older makes the outcome depend on block arrival order)")
